@@ -748,6 +748,12 @@ def exec_judged(ck, xr, run, is_replay):
         for x in set(c.get("class") or []):
             cls[x] = cls.get(x, 0) + 1
     ck.extra["exec_query_classes"] = cls
+    nonascii = lambda x: bool(x.get("line_hex")) or any(ord(ch) > 127 for ch in x.get("line", ""))
+    ck.extra["exec_lines"] = {"stored": sum(len(d["samples"]) for c in run for d in c["dbs"]),
+                              "multi_byte": sum(1 for c in run for d in c["dbs"] for x in d["samples"] if nonascii(x)),
+                              "ill_formed_utf8": sum(1 for c in run for d in c["dbs"] for x in d["samples"] if x.get("line_hex")),
+                              "databases_with_multi_byte_line": sum(1 for c in run for d in c["dbs"] if any(nonascii(x) for x in d["samples"])),
+                              "databases": sum(len(c["dbs"]) for c in run)}
     ck.extra["exec_shortcut_cases"] = sum(1 for i in m15 if m15[i])
     ck.extra["exec_shortcut_judged"] = sum(1 for (i, k) in verd if m15.get(i) and not r["unaligned"](i))
     ck.extra["exec_definition_checks"] = sum(1 for v in vdef.values() if v == 0)
@@ -759,7 +765,9 @@ def exec_judged(ck, xr, run, is_replay):
     ck.obligation("execution: at most 5%% of the statements fall outside the evaluated SQL subset (%d of %d)" % (len(noeval), judged + len(noeval)),
                   len(noeval) * 20 <= judged + len(noeval), "; ".join(byid[i]["query"] for i, _ in noeval[:3]))
     if differ:
-        i, k = min(differ, key=lambda ik: (len(byid[ik[0]]["dbs"][ik[1]]["samples"]), len(byid[ik[0]]["query"])))
+        # a database of well-formed UTF-8 lines first (ClickHouse documents lengthUTF8 and friends only for those)
+        i, k = min(differ, key=lambda ik: (any(x.get("line_hex") for x in byid[ik[0]]["dbs"][ik[1]]["samples"]),
+                                           len(byid[ik[0]]["dbs"][ik[1]]["samples"]), len(byid[ik[0]]["query"])))
         exec_violation(ck, xr, byid[i], k, r, shrink=not is_replay)
     # ---- a vector aggregation without grouping clause, against the DEFINITION (one series {}): finding agg-without-grouping-keeps-streams
     known = ck.known_findings()
@@ -837,7 +845,7 @@ def run(ck):
                             "(fingerprint 0 included, zero and negative values, rows outside [from,to], off-grid timestamps), ranges/steps smaller, equal, larger; non-trivial = FixPeriod case with >= 3 rows. "
                             "execution: metric queries of the sub-grammar with a reference meaning (matchers = / =~, line filters, label filters incl. numeric and and/or, json parameters, drop, unwrap; "
                             "every range function, vector operator with and without grouping, double groupings (by/without on an unwrapped range function under a grouped vector aggregation), quantile, comparison, topk/bottomk (long ranges, half of them over plain selectors); ranges 5s-1m, steps 1s-2m; half of the windows on whole 15 s slots, half widened to whole ranges as FixPeriodPlanner hands them) x 2 databases "
-                            "(2-5 series sharing / not sharing grouped labels, 1-5 lines each on and around window and bucket bounds, other sample types); non-trivial = agreeing case with >= 3 stored lines, distinct by (query, context, database). ")
+                            "(2-5 series sharing / not sharing grouped labels, 1-5 lines each on and around window and bucket bounds, other sample types; 8 of the 19 pool lines hold multi-byte UTF-8 sequences, a combining mark or ill-formed bytes); non-trivial = agreeing case with >= 3 stored lines, distinct by (query, context, database). ")
     if ck.replay:
         run_replay(ck)
         return
